@@ -1061,17 +1061,24 @@ def run(ctx):
                     return x
             return None
         # (a) parents are skipped only when no source could need them
-        x = cond_with(ap, [O + "parents", O + "git_global"])
-        atoms = [O + "parents", O + "git_ignore", O + "git_exclude", O + "git_global"]
-        if x is None:
+        # value table on the MIR over the four options: the parents are built (add_child_path is reached) exactly when one
+        # of them is on
+        from ..flow import table as _table, operand_at as _operand_at
+        acp_calls = ap.calls_to("ignore::dir::Ignore::add_child_path")
+        names4 = ("parents", "git_ignore", "git_exclude", "git_global")
+        if not acp_calls:
             r.bad("add_parents|skip", "anchor-missing: the 'nothing needs parent directories' test of add_parents", fn=ap)
         else:
-            ok, detail = H.equivalent(x["c"], atoms, lambda v: not any(v[a] for a in atoms))
-            returns_self = any(H.find(x["t"], lambda y: y.get("k") in ("ret", "return")))
-            if ok:
+            wrong4 = []
+            for row, sx in _table(facts, ap, fields={(OPTS, n_): [I(0), I(1)] for n_ in names4}):
+                vals = [row[("field", (OPTS, n_))][1] for n_ in names4]
+                built = any(c.bb in sx.exec_blocks for c in acp_calls)
+                if built != bool(any(vals)):
+                    wrong4.append("%s ⇒ parents %s" % (dict(zip(names4, vals)), "built" if built else "skipped"))
+            if not wrong4:
                 r.ok("add_parents|skip", "skip ⇔ ¬parents ∧ ¬git_ignore ∧ ¬git_exclude ∧ ¬git_global (16 rows)", fn=ap)
             else:
-                r.bad("add_parents|skip", "add_parents skips the parent directories under another condition: %s" % detail, fn=ap,
+                r.bad("add_parents|skip", "add_parents skips the parent directories under another condition: %s" % wrong4[0], fn=ap,
                       construct="add_parents")
         # (b) has_git of a parent / child matcher
         # add_child_path: decided on the value stored in IgnoreInner::has_git (8 rows, `.git` assumed to exist): whether the
@@ -1124,19 +1131,27 @@ def run(ctx):
                       "require_git ∧ (git_ignore ∨ git_exclude): %s" % "; ".join(wrong[:3]), fn=acp, construct="has_git")
             else:
                 r.ok("add_child_path|has_git", "has_git ⇔ require_git ∧ (git_ignore ∨ git_exclude) ∧ `.git` exists (8 rows)", fn=acp)
-        for f, key, atoms2, spec in (
-                (ap, "add_parents|has_git", [O + "require_git", O + "git_ignore"], lambda v: v[O + "require_git"] and v[O + "git_ignore"]),):
-            x = cond_with(f, [O + "require_git"])
-            if x is None:
-                r.bad(key, "anchor-missing: the require_git test of %s" % f.name, fn=f)
-                continue
-            ok, detail = H.equivalent(x["c"], atoms2, spec)
-            els = H.canon(x["e"]) if "e" in x else ""
-            if ok and ("false" in els or "None" in els):
-                r.ok(key, "looks for .git ⇔ %s; otherwise %s" % (" ∧ ".join(a.split(".")[-1] for a in atoms2[:1]) + " ∧ (git source on)", els[:12]), fn=f)
+        # add_parents: the value stored in has_git of each parent matcher, with `.git` assumed to exist (4 rows)
+        hg_st = [(bb, st) for bb, j, st in ap.stmts() if st["k"] == "assign" and st["rv"]["k"] == "use" and
+                 any(isinstance(p_, dict) and p_.get("f") == "has_git" for p_ in st["place"]["p"])]
+        if not hg_st:
+            r.bad("add_parents|has_git", "anchor-missing: the require_git test of add_parents", fn=ap)
+        else:
+            wrong2 = []
+            for row, sx in _table(facts, ap, fields={(OPTS, "require_git"): [I(0), I(1)], (OPTS, "git_ignore"): [I(0), I(1)],
+                                                     (OPTS, "parents"): [I(1)]},
+                                  calls={"Path::exists": [I(1)]}):
+                rq, gi = row[("field", (OPTS, "require_git"))][1], row[("field", (OPTS, "git_ignore"))][1]
+                for bb, st in hg_st:
+                    if bb in sx.exec_blocks:
+                        val = _operand_at(sx, bb, st, st["rv"]["a"])
+                        if val != I(1 if (rq and gi) else 0):
+                            wrong2.append("require_git=%d git_ignore=%d ⇒ %s" % (rq, gi, val))
+            if not wrong2:
+                r.ok("add_parents|has_git", "looks for .git ⇔ require_git ∧ git_ignore; otherwise false", fn=ap)
             else:
-                r.bad(key, "%s decides whether the directory is a git repository under another condition (%s; else-value `%s`)"
-                      % (f.name, detail, els[:30]), fn=f, construct="has_git")
+                r.bad("add_parents|has_git", "add_parents decides whether the directory is a git repository under another condition (%s)"
+                      % "; ".join(wrong2[:2]), fn=ap, construct="has_git")
     with ctx.rule("C05.TYPES", "file-type selection applies to files only: a directory is never decided by it", floor=1, kind="GUARD") as r:
         tm = facts.fn("ignore::types::Types::matched")
         ebt = ExprBuilder(tm)
